@@ -24,11 +24,17 @@ def generator_rows(P, cl, which):
 
 def run(chk, ctx):
     P = Prog(ctx["facts"])
+    from .iter_rules import plumbing_rule
+    plumbing_rule(chk, P, {"ParsedTestCase": ("signals",), "TestCase": ("signals", "input_indices", "expected_indices"), "DataRowIteratorTestData": ("signals", "input_indices", "expected_indices")})   # what the parser / the binding produced is what runs
     popped_row_untouched_rule(chk, P)
     # "the vector handed to the driver is complete": the generated vector is the one the driver receives (shared with C02)
     from . import c02
     c02.run(chk.only(("ORG:handle_io:write_input_and_read_output-args", "ORG:handle_io:write_input-args", "ORG:next:handle_io-gets-this-rows-inputs", "ORG:next:into_data_row-consumes-same-row",
                       "ORG:into_data_row:inputs-moved", "WHO:EvaluatedRow.inputs-unwritten", "ORG:try_new:default-vector", "ORG:default-vector:")), ctx)
+    # "taking its value from the column of that name": the only thing that may happen to the column's number on the way is
+    # the reduction to the signal's width — which must then be the right one (shared with C07)
+    from . import c07
+    c07.mask_rules(chk, P)
     from . import eqrules
     eqrules.require(chk, P, ["stmt::DataEntry"], "`new != old` on row entries means a different entry (kind or value)")
     eqrules.require_clone(chk, P, ["stmt::DataEntries"], "expansion copies carry the row's entries unchanged")
